@@ -88,9 +88,16 @@ impl NormalFormQuery {
             // PERF: better criterion for using top_n
             // PERF: top_n for multiple columns?
             // TODO: efficient PERF top_n for null or constant vec (construct indices of size min(ranking.len(), limit))
+            // top_n needs NULLs fused into the key, which only these nullable types support; others take the sort path
+            let can_fuse_nulls = !ranking.is_nullable()
+                || matches!(
+                    ranking.tag,
+                    EncodingType::NullableI64 | EncodingType::NullableStr | EncodingType::NullableF64
+                );
             let indices = if limit < partition_range.len() / 2
                 && self.order_by.len() == 1
                 && !ranking.is_constant()
+                && can_fuse_nulls
             {
                 let ranking = if ranking.is_nullable() {
                     // TODO: not implemented for all types (e.g. NullableU8). Need to upcast to u64, add corresponding fused types, or add nullable top_n
